@@ -24,7 +24,8 @@ ASSUMPTIONS = [
 TEXTS = ["", " ", "x", "\"\\/\b\f\n\r\t", "\u00e9", "\u2028", "\U0001F600", "\x00", "z" * 10240]
 DICTS = [[["k", "v"]], [["k", "v"], ["l", "w"]], [["l", "w"], ["k", "v"]], [["q\"uo'te", "v"]], [["", "v"]], [["k", ""]],
          [["{u1}x", "v"], ["p:x", "w"]], [["{http://www.w3.org/XML/1998/namespace}lang", "en"], ["xml:lang", "fr"]], [["p:x", "v"]]]
-NS = [[["p", "u1"]], [["p", "u2"]], [["p", "u1"], ["q", "u3"]], [["q", "u3"], ["p", "u1"]], [["null", "u9"], ["None", "u8"]]]
+NS = [[["p", "u1"]], [["p", "u2"]], [["p", "u1"], ["q", "u3"]], [["q", "u3"], ["p", "u1"]], [["null", "u9"], ["None", "u8"]],
+      [["p", "u1"], ["q", "u1"]]]          # two prefixes for one URI
 NS_PRE = [[["q", "u3"]], [["p", "u2"], ["q", "u3"]]]
 NAMES = ["b", "a:b cé"]
 
@@ -255,6 +256,44 @@ def work(item):
     return acc
 
 
+def scale_trees():
+    """(label, gspec) beyond the exhaustive bound: deep / wide shapes with every field set on every node, many attributes,
+    many prefixes (with aliases), long texts"""
+    out = []
+    for label, g in gtree.scale_shapes():
+        g = gtree.clone(g)
+        gtree.assign_ids(g)
+        for i, (path, n) in enumerate(gtree.walk(g)):
+            n["content"] = f"c{i}"
+            n["tail"] = f"t{i}"
+            n["attrs"] = [["k", f"v{i}"]]
+            n["extras"] = [["p:e", f"w{i}"]]
+            n["prefix"] = "p"
+        g["ns"] = [["p", "u1"]]
+        last = [n for _, n in gtree.walk(g)][-1]
+        last["ns"] = [["q", "u2"]]
+        out.append(("scale:" + label, g))
+    g = gtree.assign_ids(gtree.shapes_upto(3)[-1])
+    for i, (path, n) in enumerate(gtree.walk(g)):
+        n["attrs"] = [[f"a{j}", f" value number {j} of node {i} "] for j in range(14)]
+        n["extras"] = [[f"p{j}:x", f"w{j}"] for j in range(7)]
+        n["content"] = " ".join(f"word{j} <&>" for j in range(60))
+        n["tail"] = "t" * 300
+    g["ns"] = [[f"p{j}", f"urn:u{j % 4}"] for j in range(7)]      # seven prefixes, four URIs
+    out.append(("scale:many-attributes-prefixes-long-text", g))
+    return out
+
+
+def scale_work(item):
+    label, g = item
+    acc = core.Acc()
+    p = check(g, {"scale": label, "shape": None, "deviations": []})
+    acc.add_problems(p)
+    acc.count("trees")
+    acc.count("scale_trees")
+    return acc
+
+
 def plan(tier):
     items = []
     maxn = 5 if tier == "quick" else 6
@@ -272,6 +311,8 @@ def plan(tier):
 
 
 def replay(case):
+    if case.get("scale"):
+        return check(dict(scale_trees())[case["scale"]], case)
     g = apply(case["shape"], case["deviations"])
     return check(g, case)
 
@@ -279,6 +320,7 @@ def replay(case):
 def explore(tier):
     items = plan(tier)
     accs = core.pmap(work, items)
+    accs += core.pmap(scale_work, scale_trees())
     acc = core.merge_all(accs)
     n = acc.counts.get("trees", 0)
     cov = {
